@@ -857,6 +857,19 @@ XalanTransformer::destroyParsedSource(const XalanParsedSource*  theParsedSource)
     }
 }
 
+#if defined(APACHE_XALAN_C_VERIF)
+void
+XalanTransformer::verifSnapshot(XalanVector<XalanSize_t>&   theSizes) const
+{
+    if (m_stylesheetExecutionContext != 0)
+    {
+        m_stylesheetExecutionContext->verifSnapshot(theSizes);
+    }
+}
+#endif
+
+
+
 void
 XalanTransformer::setStylesheetParam(
             const XalanDOMString&    qname,
